@@ -41,6 +41,8 @@ fn main() {
         "gate" => parse::gate(&arg(&args, "--defs", ""), &out),
         "parse-replay" => parse::parse_replay(&arg(&args, "--defs", ""), &input, &out, &div, arg(&args, "--threads", "8").parse().unwrap()),
         "parse-record" => parse::parse_record(&arg(&args, "--defs", ""), seed, n, arg(&args, "--maxlen", "12").parse().unwrap(), &out),
+        "spell-replay" => parse::spell_replay(&arg(&args, "--defs", ""), &input, &out, &div),
+        "spell-record" => parse::spell_record(&arg(&args, "--defs", ""), seed, n, arg(&args, "--maxelems", "6").parse().unwrap(), &out),
         "c04-record" => values::c04_record(seed, n, &out),
         "c20-replay" => wrap::c20_replay(&input, &out, &div),
         "c20-record" => wrap::c20_record(seed, n, arg(&args, "--maxlen", "120").parse().unwrap(), &out),
